@@ -32,6 +32,16 @@ pub struct Func {
     args: Vec<String>,
 }
 
+// Converts number used as index to position in list of given length. Position is valid
+// if it's not negative and is before end of list, fraction is discarded
+pub(crate) fn list_position(index: f64, list_len: usize) -> Option<usize> {
+    if index >= 0.0 && (index as usize) < list_len {
+        Some(index as usize)
+    } else {
+        None
+    }
+}
+
 #[derive(Debug)]
 struct LoopEnv {
     start: usize,
@@ -891,13 +901,16 @@ impl<'a, T: 'a + IO> Interpreter<'a, T> {
 
         match (identifier, index) {
             (DataType::List(arr_i), DataType::Num(i)) => {
-                let arr = self.lists[arr_i].clone();
-                return Ok(arr[i as usize].clone());
+                match list_position(i, self.lists[arr_i].len()) {
+                    Some(position) => return Ok(self.lists[arr_i][position].clone()),
+                    None => return Err(RuntimeError(line, file_name, "List index out of range".to_string())),
+                }
             },
             (DataType::NamelessRecord(record_i), DataType::String(key)) => {
-                let nameless_record = self.nameless_records[record_i].clone();
-                let record_data = nameless_record.get(&*key).unwrap().clone();
-                return Ok(record_data);
+                match self.nameless_records[record_i].get(&*key) {
+                    Some(record_data) => return Ok(record_data.clone()),
+                    None => return Err(RuntimeError(line, file_name, format!("Record doesn't have key \"{}\"", key))),
+                }
             },
             (_, DataType::Num(_)) => {
                 return Err(RuntimeError(line, file_name, "Only list supports indexing with number".to_string()));
